@@ -5,6 +5,7 @@ package vos
 
 import (
 	"errors"
+	"fmt"
 	"io"
 	"io/fs"
 	"os"
@@ -66,6 +67,9 @@ type FSPoint struct {
 	Len  int
 	Tag  string // group of the thread that performed it
 }
+
+// MaxMutations bounds the file-system mutations of one execution.
+var MaxMutations = 400000
 
 // FS is the in-memory file system of one execution.
 type FS struct {
@@ -168,6 +172,11 @@ func (f *FS) MkdirAll(p string) {
 }
 
 func (f *FS) point(op, p string, n int) FSPoint {
+	if len(f.Points) >= MaxMutations {
+		// a writer that never stops (for instance a compaction reading the file it is writing) must not eat
+		// the machine: the execution ends with a crash the check reports
+		panic(fmt.Sprintf("vos: more than %d file-system mutations in one execution (last: %s %s): a writer does not terminate", MaxMutations, op, p))
+	}
 	pt := FSPoint{N: len(f.Points), Op: op, Path: p, Len: n}
 	if vrt.R != nil && vrt.CurThread() != nil {
 		pt.Tag = vrt.CurGroup()
